@@ -12,6 +12,11 @@ open Cascette.Props.C09
 #print axioms arc4_key_len_guard
 #print axioms arc4_decrypt_encrypt
 #print axioms arc4_piecewise
+#print axioms simd_memcmp_eq_scalar
+#print axioms simd_mem_equal_eq_scalar
+#print axioms simd_memmem_eq_scalar
+#print axioms simd_memset_eq_scalar
+#print axioms simd_memcpy_eq_scalar
 -- translator tie: definitions generated from the current Rust source = model definitions
 #print axioms Cascette.Proofs.CryptoTie.quarter_round_tie
 #print axioms Cascette.Proofs.CryptoTie.round_body_tie
